@@ -9,7 +9,7 @@ C17Configs == { [phase |-> 0, fabric |-> 0, regime |-> 4, n |-> 5],
                 [phase |-> 0, fabric |-> 2, regime |-> 1, n |-> 3],
                 [phase |-> 0, fabric |-> 4, regime |-> 7, n |-> 4],
                 [phase |-> 0, fabric |-> 1, regime |-> 2, n |-> 6] }   \* unsupported regime still saves
-C17Pars == { [M |-> 125, chi |-> 3, asm |-> <<0, 1>>, phiOl |-> 7] }
+C17Pars == { [M |-> 125, chi |-> 3, asm |-> <<0, 1>>, phiOl |-> 7, x |-> <<5, 0>>] }
 \* construction and a few updates, then persistence only
 Grow(m) == \/ \E c \in Configs, s \in Seeds, tx \in Textures : Create(m, c, s, tx, InitO(s, c.n, tx), InitF(c.n, tx))
            \/ \E fl \in Flows, par \in Pars :
